@@ -13,7 +13,7 @@ RULE = ('Base documents: fixtures, generated valid documents, documents with 1-4
         'acknowledgement are identical for the original and every re-encoding. non-trivial = distinct (document, encoding) pairs where the document has >=1 error.')
 ASSUMPTIONS = ['message strings and HTML are not compared (they legitimately contain delimiters)', 'source line numbers are compared as segment ordinals, which re-encoding preserves',
                'acknowledgement envelope lines (ISA/GS/ST/SE/GE/IEA, which carry timestamps and generated control numbers) are excluded']
-REQUIRED_COUNTERS = ['bases:with-empty-or-blank-segment', 'bases:with-trailing-separator-or-leading-blank', 'bases:longer-than-one-read-buffer', 'bases', 'bases:with-errors', 'bases:valid', 'encodings', 'encodings:control-char-delimiter', 'encodings:eol:', 'encodings:eol:\\r\\n', 'encodings:eol:\\n']
+REQUIRED_COUNTERS = ['bases:with-data-less-segment', 'bases:with-empty-or-blank-segment', 'bases:with-trailing-separator-or-leading-blank', 'bases:longer-than-one-read-buffer', 'bases', 'bases:with-errors', 'bases:valid', 'encodings', 'encodings:control-char-delimiter', 'encodings:eol:', 'encodings:eol:\\r\\n', 'encodings:eol:\\n']
 MIN_CASES = {'quick': 900, 'thorough': 30000}
 WATCHDOG_S = {'quick': 1200, 'thorough': 7200}
 
@@ -66,7 +66,7 @@ def judge(ctx, base, charset, case, sigs, k_enc):
     for j in range(k_enc):
         rng = ctx.sub_rng('enc', repr(case.get('k')), j)
         try:
-            st, et, sb, eol = reencode.pick_terms(rng, base, charset, ctrl_ele=(j == 1))      # one encoding per base with FS/GS/RS/US/tab between elements
+            st, et, sb, eol = reencode.pick_terms(rng, base, charset, ctrl_ele=(j == 1), fmt_ele=(j == 2))      # one encoding per base with FS/GS/RS/US/tab between elements
             if not ctx.quick and j == 0:
                 used = reencode.data_chars(base)
                 if '\n' not in used and '\r' not in used:
@@ -148,7 +148,15 @@ def run(ctx):
         if rng.random() < 0.2:
             # a segment ending in element separators / beginning with blanks: reader-level findings that must not depend on which characters delimit
             terms0, segs0 = mutate.parse(text)
-            (mutate.m_trailing_separator if rng.random() < 0.6 else mutate.m_leading_blank)(rng, terms0, segs0)
+            r0 = rng.random()
+            if r0 < 0.25:
+                # a segment without any data ('REF**' / 'REF'): the reader's finding about it quotes the raw segment text
+                cand0 = [i for i, s0 in enumerate(segs0) if i > 2 and s0[0] not in mutate.HEADERS + mutate.TRAILERS]
+                if cand0:
+                    segs0[rng.choice(cand0)][1] = rng.choice([[], [['']], [[''], ['']]])
+                    ctx.count('bases:with-data-less-segment')
+            else:
+                (mutate.m_trailing_separator if r0 < 0.7 else mutate.m_leading_blank)(rng, terms0, segs0)
             text = mutate.render(terms0, segs0, '\n')
             if rng.random() < 0.3:
                 # a terminator directly after a terminator (after its line break): an empty segment, whatever the layout
